@@ -45,7 +45,7 @@ def main(argv):
     pm = mod.PROOF_MODULE
     proof_modules = [pm] if isinstance(pm, str) else list(pm)
     # a regenerated file that could not be produced breaks the tie of the properties whose theorems mention it
-    relevant = set(getattr(mod, "GENERATED", ["DrawDecision", "Constants"]))
+    relevant = set(getattr(mod, "GENERATED", []))
     for name, err in reg["errors"].items():
         if name in relevant:
             ctx.tie_break("regeneration:" + name, err)
